@@ -202,6 +202,9 @@ def run(ctx):
             continue
         events.append({"kind": "cat", "a": a, "b": b, "out": bits(out), "rout": bits(rout)})
         meta.append(("cat", f))
+        for r_ in (out, rout):          # a new sequence every time, also when one operand is empty
+            if r_ is A or not isinstance(r_, binary_sequence) or np.shares_memory(r_.data, A.data):
+                ctx.violation("cat:aliasing", "a concatenation returned an operand itself or a sequence sharing its buffer", {"a": a, "b": b, "form": f})
         ctx.case(("cat", f, n % 2, min(len(a), 7) // 3, min(len(b), 7) // 3))
     for a in longs + rnd.sample(strings, 300 if T else 80):
         A = mk(a)
@@ -256,6 +259,8 @@ def run(ctx):
         n = rnd.choice([1, 2, 5, 32, 257])
         intsig = rnd.random() < 0.4          # integer-dtype samples with a fractional threshold too
         sig = np.array([rnd.randrange(0, 10) for _ in range(n)]) if intsig else np.array([rnd.randrange(0, 640) for _ in range(n)]) / 64
+        if intsig and rnd.random() < 0.5:      # raw counts: 8-bit codes up to 255, 64-bit counts of several 10^9
+            sig = np.array([rnd.randrange(0, 256) for _ in range(n)], dtype=np.uint8)
         noise = (np.array([rnd.randrange(-1, 2) for _ in range(n)]) if intsig else np.array([rnd.randrange(-64, 64) for _ in range(n)]) / 64) if rnd.random() < 0.5 else None
         thr_arr = rnd.random() < 0.4
         thr = np.array([rnd.randrange(0, 640) for _ in range(n)]) / 64 if thr_arr else rnd.randrange(0, 640) / 64
@@ -272,10 +277,12 @@ def run(ctx):
                 thr = (sig + hair) if thr_arr else float(sig[rnd.randrange(n)]) + hair
                 thr = np.abs(thr) if thr_arr else abs(thr)
                 K = 2 ** 26
-            pw = rnd.choice([2.0 ** -30, 2.0 ** -40, 2.0 ** 20, 1.0])
-            sig, thr = sig * pw, thr * pw
+            pw = rnd.choice([2.0 ** -30, 2.0 ** -40, 2.0 ** 20, 1.0, 2.0 ** -560, 2.0 ** 540, 2.0 ** -1000])       # down to 1e-301 and up to 1e+165
+            logged = ([int(round(v * K)) for v in sig], [] if noise is None else [int(round(v * K)) for v in noise], [int(round(v * K)) for v in (thr if thr_arr else [thr])])
+            sig, thr = sig * pw, thr * pw          # exact: powers of two
             noise = None if noise is None else noise * pw
-            K = K / pw
+        else:
+            logged = None
         E = electrical_signal(sig, noise)
         for arr in (E.signal, E.noise):
             if arr is not None:
@@ -286,8 +293,9 @@ def run(ctx):
         if not ok:
             ctx.violation("cmp:type", "comparison did not return a valid binary_sequence", {"sig": sig.tolist()})
             continue
-        events.append({"kind": "cmp", "op": op, "sig": [int(round(v * K)) for v in sig], "noise": [] if noise is None else [int(round(v * K)) for v in noise],
-                       "thr": [int(round(v * K)) for v in (thr if thr_arr else [thr])], "out": bits(out)})
+        if logged is None:
+            logged = ([int(round(v * K)) for v in sig], [] if noise is None else [int(round(v * K)) for v in noise], [int(round(v * K)) for v in (thr if thr_arr else [thr])])
+        events.append({"kind": "cmp", "op": op, "sig": logged[0], "noise": logged[1], "thr": logged[2], "out": bits(out)})
         meta.append(("cmp", op))
         ctx.case(("cmp", op, noise is not None, thr_arr, min(n, 3), intsig))
         # complex / negative data: only closure is stated
@@ -297,6 +305,19 @@ def run(ctx):
         events.append({"kind": "cmpany", "n": n, "out": bits(out) if isinstance(out, binary_sequence) else [2]})
         meta.append(("cmpany", op))
         ctx.case(("cmpany", op, noise is not None, thr_arr))
+    # 64-bit counts of several 10^9 (beyond TLC's integers: compared here with Python's exact integers)
+    for _ in range(40 if T else 10):
+        n = rnd.choice([1, 4, 33])
+        vals = [rnd.randrange(0, 2 ** 33) for _ in range(n)]
+        thr_i = rnd.choice(vals) + rnd.choice([-1, 0, 1, 12345])
+        E = electrical_signal(np.array(vals, dtype=np.int64))
+        for op in ("gt", "lt"):
+            with deadline(30):
+                out = (E > thr_i) if op == "gt" else (E < thr_i)
+            want = [int(v > thr_i) if op == "gt" else int(v < thr_i) for v in vals]
+            if not isinstance(out, binary_sequence) or bits(out) != want:
+                ctx.violation("cmp:cmp-elementwise", f"comparison of 64-bit counts with {thr_i}: {bits(out) if isinstance(out, binary_sequence) else out} instead of {want}", {"sig": vals, "thr": thr_i, "op": op})
+        ctx.case(("cmp-int64", n), None)
     # index keys that would add an axis or select through a 2-D index: rejected, or at any rate never an invalid (non 1-D) sequence
     for b in ([1, 0, 1, 1, 0, 0, 1, 0], [1], [0, 1, 1]):
         a = mk(b)
